@@ -67,7 +67,7 @@ func init() {
 			}
 			docs := []string{"M", "D", "E", "Mres", "Mtxn", "Dres", "Mpart", "Mempty", "Mbin", "SEQ", "OSO", "CC", "CD", "CF", "CM", "SC", "SD"}
 			skip := []string{"M", "E", "Mbefore", "Mat", "Ebefore", "Mres", "SEQ"}
-			coll := []string{"M", "Mc1", "Dc2", "Mcx", "CC"}
+			coll := []string{"M", "Mc1", "Dc2", "Mcx", "CC", "CD"} // (CD: "collection c1 dropped", seen by ONE vBucket at that point)
 			ops := []string{"deliver0", "deliver1", "ackold"}
 			return []Instance{
 				{Scenario: "pipe", Params: mustJSON(PipeParams{Mode: "gen", Alphabet: docs, Depth: d, Ops: ops}), Bound: 0, Shards: 8},
